@@ -27,16 +27,27 @@ CFG = {
     "lean_files": ["SuccinctlyVerif/Props/C09.lean", "SuccinctlyVerif/Proof/Chunked.lean", "SuccinctlyVerif/Proof/Escape.lean",
                    "SuccinctlyVerif/Proof/EscapeRoundTrip.lean", "SuccinctlyVerif/Proof/EscapeYq.lean",
                    "SuccinctlyVerif/Model/Escape.lean"],
-    "generated": [],
+    "generated": ["C09:lanes"],
     "required_theorems": ["SV.Props.C09.scanner_eq_scalar", "SV.Props.C09.scanner_eq_sse2", "SV.Props.C09.scanner_eq_avx2",
                           "SV.Props.C09.escaped_iff_required_jq", "SV.Props.C09.escaped_iff_required_yq",
                           "SV.Props.C09.conventions_differ_exactly_at", "SV.Props.C09.yq_writer_eq",
                           "SV.Props.C09.yq_writer_slices_on_char_boundaries", "SV.Props.C09.roundtrip_jq",
-                          "SV.Props.C09.roundtrip_jq_ascii", "SV.Props.C09.roundtrip_yq_ascii", "SV.Props.C09.roundtrip_yq"],
+                          "SV.Props.C09.roundtrip_jq_ascii", "SV.Props.C09.roundtrip_yq_ascii", "SV.Props.C09.roundtrip_yq",
+                          "SV.Props.C09.lanes_generated_eq"],
     "allow_bv_decide": False,
     "nontrivial": _c09_nontrivial,
     "rule": "distinct request lines with a non-empty string / byte argument",
     "explanation": "writers: model output = implementation output for every generated string, and the model's output is "
                    "decoded by the RFC 8259 body decoder back to the input on every request; scanner: every tier = first "
                    "escapable index",
+}
+
+
+# Lane DAGs of the JSON escape scanner's match masks, regenerated from source on every run
+# (tools/rs2lean.py kind "lanes"); Props/C09.lean `lanes_generated_eq` ties them to `jsonMaskLane`.
+EXTRACT = {
+    "lanes": [
+        ("json_avx2_mask", "src/util/simd/escape.rs", "json_avx2_mask", {"inputs": ["chunk"], "outputs": ["return"]}),
+        ("json_sse2_mask", "src/util/simd/escape.rs", "json_sse2_mask", {"inputs": ["chunk"], "outputs": ["return"]}),
+    ],
 }
